@@ -37,6 +37,9 @@ EXPLANATION += ' R1/R2 no longer match loop templates: convert_to_segmented is i
 TECHNIQUE += '; evaluated guard matrix; typestate clause for copyability'
 EXPLANATION += " Added: (R6) the writers' pre-flight applies segmentation / un-restriction exactly where the format needs it (guard matrix evaluated per format and object class, also prepare_*(allow_changes=True) contents); (R7) every conversion is a copy made with attrs.evolve, which exists only if an object in any reachable state can be constructed again from its own fields (typestate clause C11-R5)."
 # --- end metadata batch 7
+# --- metadata added for batch 8
+EXPLANATION += ' R1 / R6 evaluate caches keyed by `id()` with weak references; the guard matrix has a row for shells listed out of atom order.'
+# --- end metadata batch 8
 TRUSTED = ["CPython ast parser", "attrs.evolve copies all fields not named", "np.concatenate keeps the order of its inputs"]
 
 
